@@ -543,6 +543,8 @@ func c16rRun(c *vr.Report, cs c16rCase) {
 	c.Eval()
 	var trace strings.Builder
 	var reported [2][c16rNRec]bool
+	var prevCnt [2][c16rNRec]int
+	var wrongPurge [2]bool
 	everLoose := false
 	for step, e := range full {
 		cache, kind := e/c16rNEv, e%c16rNEv
@@ -567,6 +569,16 @@ func c16rRun(c *vr.Report, cs c16rCase) {
 			c.Transitions++
 		}
 		cnt, extra := im.snapshot()
+		if strings.HasPrefix(label, "expiry(after-successful-reload") {
+			for ri := range cnt[cache] {
+				if cnt[cache][ri] < prevCnt[cache][ri] {
+					// the expiry purged records although a reload had completed; a buffered/in-flight record can hide
+					// this until a later step - that later discrepancy has this root cause
+					wrongPurge[cache] = true
+				}
+			}
+		}
+		prevCnt = cnt
 		if len(extra) > 0 {
 			c.Violationf("C16/rtr/unexpected-table-entry", cs, "after step %d of %s (start %d): %v", step-pre, c16rSeqString(cs.Seq), cs.Start, extra)
 			return
@@ -588,6 +600,9 @@ func c16rRun(c *vr.Report, cs c16rCase) {
 				}
 				reported[ci][ri] = true
 				key := c16rClassify(prev, &model[ci], ci == cache, kind, label, ri, n)
+				if n == 0 && wrongPurge[ci] {
+					key = "C16/rtr/overwritten-lifetime-timer-purges-reloaded-data"
+				}
 				min := cs
 				if step >= pre {
 					min.Seq = append([]int{}, cs.Seq[:step-pre+1]...)
@@ -670,7 +685,6 @@ func c16rClassify(prev c16rCache, now *c16rCache, sameCache bool, kind int, labe
 	}
 	return fmt.Sprintf("C16/rtr/table-differs after=%s record-%s", strings.SplitN(label, "(", 2)[0], dir)
 }
-
 
 // ---------------------------------------------------------------------------------------------
 // cache-server removal through the management API (the only caller of roaManager.DeleteServer): a cache that was
